@@ -107,6 +107,7 @@ func cmdCheck(args []string, repo, spec string, timeout int, verbose bool) int {
 	c := &Checker{W: w, Prop: ps, Tier: tier, Seed: seed, Timeout: timeout, Dir: dir, Verif: verif, EncOf: map[*Obl]*enc{}}
 	c.selectAndEncode()
 	c.writersObligations()
+	c.ifaceTypeObligations()
 	c.frameObligations()
 	if ps.Extra != nil {
 		ps.Extra(c)
@@ -502,7 +503,7 @@ func (c *Checker) frameObligations() {
 			if m == nil {
 				continue
 			}
-			for _, f := range w.Mod.implMethods(it, m) {
+			for _, f := range w.Mod.implMethodsRaw(it, m) {
 				if encoded[f] {
 					continue
 				}
@@ -668,4 +669,78 @@ func (w *World) ifaceMethod(key string) (types.Type, *types.Func) {
 		}
 	}
 	return nil, nil
+}
+
+// ifaceTypeObligations: "iface-types I: T1, T2" closes an interface. Every conversion to I anywhere
+// in the program must start from one of the listed types (MakeInterface), and nothing may be turned
+// into an I by interface conversion or type assertion.
+func (c *Checker) ifaceTypeObligations() {
+	w := c.W
+	var keys []string
+	for k := range w.CS.IfaceTypes {
+		keys = append(keys, k)
+	}
+	sort.Strings(keys)
+	for _, k := range keys {
+		pkgName := strings.SplitN(k, ".", 2)[0]
+		mine := false
+		for _, e := range c.Encs {
+			if e.f.Pkg != nil && e.f.Pkg.Pkg.Name() == pkgName {
+				mine = true
+			}
+		}
+		if !mine {
+			continue
+		}
+		it, err := w.resolveType(pkgName, strings.SplitN(k, ".", 2)[1])
+		if err != nil {
+			c.engineErr = append(c.engineErr, fmt.Sprintf("%s: %v", w.CS.IfaceTypesAt[k], err))
+			continue
+		}
+		allowed := w.implementers(it)
+		isAllowed := func(t types.Type) bool {
+			for _, a := range allowed {
+				if types.Identical(a, t) {
+					return true
+				}
+			}
+			return false
+		}
+		var holder *enc
+		n := 0
+		for _, f := range w.FuncList {
+			for _, b := range f.Blocks {
+				for _, ins := range b.Instrs {
+					bad := ""
+					switch x := ins.(type) {
+					case *ssa.MakeInterface:
+						if types.Identical(x.Type(), it) {
+							n++
+							if !isAllowed(x.X.Type()) {
+								bad = fmt.Sprintf("a %s is stored in a %s", x.X.Type(), k)
+							}
+						}
+					case *ssa.ChangeInterface:
+						if types.Identical(x.Type(), it) {
+							bad = fmt.Sprintf("interface conversion to %s", k)
+						}
+					case *ssa.TypeAssert:
+						if types.Identical(x.AssertedType, it) {
+							bad = fmt.Sprintf("type assertion to %s", k)
+						}
+					}
+					if bad != "" {
+						e := c.structEnc(f)
+						c.addStruct(e, "frame", "iface-types:"+k, ins.Pos(), false, bad+": the interface is declared closed over "+strings.Join(w.CS.IfaceTypes[k], ", "))
+					}
+				}
+			}
+			if holder == nil && f.Pkg != nil && f.Pkg.Pkg.Name() == pkgName && f.Blocks != nil {
+				holder = c.structEnc(f)
+			}
+		}
+		if holder != nil {
+			c.addStruct(holder, "frame", "iface-types-scan:"+k, holder.f.Pos(), true, fmt.Sprintf("%d conversions to %s in the program, all from %s", n, k, strings.Join(w.CS.IfaceTypes[k], ", ")))
+		}
+	}
 }
